@@ -5,6 +5,9 @@ Case lines (see lean/ArvVerif/Driver/C18.lean for the protocol):
   pdh <mthex>                        arvados.PortableDataHash                         (driver fed)
   get <cid> <req> <fwd> <local> <remotes> <order>   Conn.CollectionGet with scripted backends (fed)
   getseq <cid> <n> (<req> <fwd> <local> <remotes> <order>){n}   n requests through ONE Conn   (fed)
+  getrace <cid> <req> <rounds> <remotes>   local 404; all answering remotes answer at the same moment,
+                                     repeated <rounds> times with staggers of 0-49 us; result = set of
+                                     distinct outcomes (model: the results over all completion orders)  (fed)
   legacy <id> <expect> <field> <mt>  rewriteSignatures on a 200 record                (driver leg)
   legacyraw reqerr|badjson|status:N  rewriteSignatures pass-through branches          (driver leg)
   lfetch <req> <local> <remotes> <order>   fetchRemoteCollectionByPDH with scripted HTTP peers (driver leg)
@@ -21,7 +24,9 @@ RULE = ("manifests from a small grammar (1-3 streams, 1-3 locators per stream, s
         "with trailing hints / 27-character UUIDs, 0-4 remotes answering {match, mismatch, 404, 5xx, 401, "
         "hang}, local {404, match, mismatch, 5xx, hang}, every completion order of the answering remotes "
         "for <= 3 (quick) / <= 4 (thorough) of them; sequences of 2-5 requests through one Conn in which a remote "
-        "first answers honestly and later with alterations of the same / another byte length; the legacy delegate "
+        "first answers honestly and later with alterations of the same / another byte length; 2-4 remotes "
+        "answering AT THE SAME MOMENT (one gate, staggers of 0-49 us, 120-300 rounds per scenario; at least two "
+        "of them with a matching manifest signed differently per remote); the legacy delegate "
         "with scripted HTTP peers; a get case is non-trivial when at least one backend "
         "returns a collection; distinct = distinct case line")
 ASSUMPTIONS = [
@@ -29,6 +34,9 @@ ASSUMPTIONS = [
     "remote ids are distinct non-empty strings without ' ', '=', ';', ','",
     "the completion order of the remotes' CollectionGet calls is the scripted release order: the driver "
     "releases one stub at a time and waits until the controller has digested the answer",
+    "for answers arriving together (getrace) the scheduler decides the interleaving of the closures; the "
+    "driver samples it (rounds x staggers) and every observed result must be one the model allows for some "
+    "completion order and must satisfy the oracle",
     "fetchRemoteCollectionByPDH (legacy delegate) is driven with a scripted http.RoundTripper in place of the "
     "local Rails API and the remote clusters; MaxRequestAmplification is unlimited; a hanging peer answers its "
     "cancellation only after the delegate returned, so the errors counted at a client cancel are those "
@@ -512,6 +520,47 @@ def _getseq_cases(rng, tier, n_scen):
     return cases
 
 
+def _getrace_cases(rng, tier, n_scen):
+    """2-4 remotes whose answers arrive together: at least two matching manifests (every remote signs
+    with its own signatures), the others matching / mismatching / 404 / 5xx / hanging"""
+    cases = []
+    for sc in range(n_scen):
+        odd = rng.random() < 0.2
+        streams = _structure(rng, odd)
+        pdh = spec_pdh(_unsigned(streams))
+        cid = _cluster(rng)
+        nrem = rng.choice([2, 2, 2, 3, 3, 4])
+        rids = []
+        while len(rids) < nrem:
+            r = _cluster(rng)
+            if r != cid and r not in rids:
+                rids.append(r)
+        kinds = ["match", "match"] + [rng.choice(["match", "match", "mismatch", "E404", "E503", "H"]) for _ in range(nrem - 2)]
+        if rng.random() < 0.15:
+            kinds[1] = rng.choice(["mismatch", "E404"])
+        rng.shuffle(kinds)
+        rem = []
+        for i, (r, k) in enumerate(zip(rids, kinds)):
+            if k == "match":
+                a = _answer("M", r, i + 1, _render(rng, streams, rng.choice(["all", "all", "all", "multi", "some"]), odd))
+            elif k == "mismatch":
+                a = _answer("M", r, i + 1, _tamper(rng, _render(rng, streams, "all", odd))[0])
+            else:
+                a = _answer(k, r, i + 1)
+            rem.append(f"{r}={a}")
+        req = rng.choice([pdh, pdh, pdh, pdh + "+K@zzzzz"])
+        rounds = rng.choice([120, 200, 300])
+        cases.append(f"getrace {hx(cid)} {hx(req)} {rounds} {';'.join(rem)}")
+    return cases
+
+
+def _race_as_get(case):
+    """the `get` case line (scripted order = listed order of the answering remotes) of a getrace case"""
+    f = case.split(" ")
+    live = [e.split("=", 1)[0] for e in f[4].split(";") if e.split("=", 1)[1] != "H"]
+    return f"get {f[1]} {f[2]} - E:404 {f[4]} {','.join(live) or '-'}"
+
+
 def _seq_steps(case, impl):
     """the `get` case line and the result segment of every request of a getseq case"""
     f = case.split(" ")
@@ -602,6 +651,7 @@ def generate(rng, tier):
     cases += _legacy_cases(rng, 500 if quick else 8000)
     cases += _lfetch_cases(rng, tier, 250 if quick else 4000)
     cases += _getseq_cases(rng, tier, 250 if quick else 5000)
+    cases += _getrace_cases(rng, tier, 40 if quick else 400)
     return cases
 
 
@@ -636,6 +686,9 @@ def compare(case, impl, model):
             if any(amap[r][0] == "X" for r in order):
                 return impl in (model.replace("err 502", "err 404"), model.replace("err 404", "err 502"))
         return impl == model
+    if case.startswith("getrace "):
+        got, allowed = impl.split(" | "), model.split(" | ")
+        return bool(impl) and model != "bad-op" and all(g in allowed for g in got)
     return impl == model
 
 
@@ -676,6 +729,13 @@ def oracle(case, impl):
             why = oracle(g, seg)
             if why:
                 return f"request {k + 1} of {len(steps)} through the same Conn: " + why
+        return None
+    if f[0] == "getrace":
+        g = _race_as_get(case)
+        for seg in impl.split(" | "):
+            why = oracle(g, seg)
+            if why:
+                return "remotes answering at the same moment: " + why
         return None
     if f[0] == "get":
         cid, req, fwd, local, rem, order = _parse_get(case)
@@ -814,6 +874,14 @@ def finding_of(case, impl, why):
             if w:
                 return finding_of(g, seg, w)     # the first offending request decides
         return None
+    if f[0] == "getrace":
+        g = _race_as_get(case)
+        ids = set()
+        for seg in impl.split(" | "):
+            w = oracle(g, seg)
+            if w:
+                ids.add(finding_of(g, seg, w))
+        return ids.pop() if len(ids) == 1 else None      # every offending outcome must be the same finding
     if f[0] == "get" and impl.startswith("ok "):
         cid, req, fwd, local, rem, order = _parse_get(case)
         g = impl.split(" ")
@@ -885,7 +953,7 @@ def nontrivial_key(case, impl):
         return case if len(f[-1]) > 66 else None
     if f[0] == "lfetch":
         return case if "R:" in case else None
-    if f[0] == "getseq":
+    if f[0] in ("getseq", "getrace"):
         return case
     return None
 
@@ -895,7 +963,8 @@ def describe(cases, impl):
          "get_answers": {"match": 0, "mismatch": 0, "E404": 0, "E5xx": 0, "E4xx_other": 0, "hang": 0},
          "get_client_cancel": 0, "get_fanout": 0, "get_winner_not_first_in_order": 0,
          "legacy_results": {}, "rw_changed": 0, "lfetch_results": {}, "lfetch_client_cancel": 0,
-         "lfetch_winner_not_first_in_order": 0, "getseq_requests": 0, "getseq_results": {}}
+         "lfetch_winner_not_first_in_order": 0, "getseq_requests": 0, "getseq_results": {},
+         "getrace_rounds": 0, "getrace_distinct_outcomes": {}, "getrace_matching_remotes": {}}
     for c, r in zip(cases, impl):
         f = c.split(" ")
         d["ops"][f[0]] = d["ops"].get(f[0], 0) + 1
@@ -932,6 +1001,13 @@ def describe(cases, impl):
                 d["getseq_requests"] += 1
                 k = " ".join(seg.split(" ")[:2]) if seg.startswith("err") else seg.split(" ")[0]
                 d["getseq_results"][k] = d["getseq_results"].get(k, 0) + 1
+        elif f[0] == "getrace":
+            d["getrace_rounds"] += int(f[3])
+            k = str(len(r.split(" | ")))
+            d["getrace_distinct_outcomes"][k] = d["getrace_distinct_outcomes"].get(k, 0) + 1
+            _c, req, _f, _l, rem, _o = _parse_get(_race_as_get(c))
+            k = str(sum(1 for _rid, a in rem if a[0] == "M" and spec_matches(req, a[2])))
+            d["getrace_matching_remotes"][k] = d["getrace_matching_remotes"].get(k, 0) + 1
         elif f[0] == "lfetch":
             g = r.split(" ")
             k = g[0] + ((" " + g[1]) if g[0] in ("err", "localstatus") else "")
@@ -982,6 +1058,10 @@ def neighbours(case, rng):
         # repeat the sequence, and repeat its last request once more
         out.append(" ".join(f[:2] + [str(2 * n)] + f[3:] + f[3:]))
         out.append(" ".join(f[:2] + [str(n + 1)] + f[3:] + f[3 + 5 * (n - 1):]))
+    elif f[0] == "getrace":
+        # more rounds; remotes listed in reverse (another remote gets the stagger first)
+        out.append(" ".join(f[:3] + [str(2 * int(f[3]))] + f[4:]))
+        out.append(" ".join(f[:4] + [";".join(reversed(f[4].split(";")))]))
     elif f[0] == "lfetch":
         req, local, rem, order = _parse_lfetch(case)
         for _ in range(3):
